@@ -832,7 +832,13 @@ impl X {
                     let whens: Vec<(PT, PT)> = vals
                         .iter()
                         .enumerate()
-                        .map(|(i, val)| (PT::Bin("=".into(), Box::new(x.clone()), Box::new(PT::Num(val.to_string()))), PT::Num(i.to_string())))
+                        .map(|(i, val)| {
+                            let lit = match field_text(*val) {
+                                Some(t) => PT::Str(t),
+                                None => PT::Num(val.to_string()),
+                            };
+                            (PT::Bin("=".into(), Box::new(x.clone()), Box::new(lit)), PT::Num(i.to_string()))
+                        })
                         .collect();
                     let c = PT::Case(whens, Some(Box::new(PT::Num(vals.len().to_string()))));
                     v.push(json!({"e": pt(&c), "dir": J::Null, "nulls": nulls}));
